@@ -1,4 +1,8 @@
-"""C12 child-process entry point: `/venv/bin/python harness/c12_child.py <spec.json>`.
+"""C12 child-process entry point: `/venv/bin/python harness/c12_child.py <spec.json>`
+(one run in this process) or `... c12_child.py --server` (a pristine interpreter that has only
+imported GEMSEO and that forks one fresh process per spec path read on stdin: every run — killed or
+not, first start or restart — is its own OS process and never shares memory with another run; the
+import cost is paid once).
 
 Builds a real MDOScenario/DOEScenario from the spec with harness disciplines (harness/c12_disc.py),
 sets the history backup, optionally attaches read-only tracing listeners, executes it — possibly
@@ -48,7 +52,48 @@ def build(spec):
         scenario.add_constraint(name, constraint_type=ctype)
     for name in sc.get("observables", []):
         scenario.add_observable(name)
+    if sc.get("nocache"):
+        # every function evaluation executes the disciplines again: evaluations of different
+        # functions at the same point are separated by discipline executions (crash points)
+        none = discs[0].CacheType.NONE
+        for d in [*discs, *scenario.formulation.get_top_level_disciplines()]:
+            d.set_cache(none)
     return scenario, discs
+
+
+def trace_requests(problem, normalized: bool):
+    """Log every request made to a preprocessed problem function (public `evaluate` / `jac`)."""
+    from gemseo.algos.database import Database
+    from gemseo.algos.problem_function import ProblemFunction
+    from gemseo.core.mdo_functions.mdo_function import MDOFunction
+
+    from harness import c12_disc
+    from harness.c12_disc import flt
+
+    space = problem.design_space
+
+    def phys(x):
+        return flt(space.unnormalize_vect(x) if normalized else x)
+
+    orig_evaluate = ProblemFunction.evaluate
+
+    def evaluate(self, x_vect):
+        c12_disc.LOG.write({"ev": "req", "name": self.name, "x": phys(x_vect)})
+        return orig_evaluate(self, x_vect)
+
+    ProblemFunction.evaluate = evaluate
+    base_jac = MDOFunction.jac
+
+    def jac_getter(self):
+        pointer = base_jac.fget(self)
+
+        def traced(x_vect):
+            c12_disc.LOG.write({"ev": "req", "name": Database.get_gradient_name(self.name), "x": phys(x_vect)})
+            return pointer(x_vect)
+
+        return traced
+
+    ProblemFunction.jac = property(jac_getter, base_jac.fset)
 
 
 def main(spec_path: str) -> int:
@@ -88,6 +133,7 @@ def main(spec_path: str) -> int:
 
         problem.add_listener(on_store, at_each_iteration=False, at_each_function_call=True)
         problem.add_listener(on_iter, at_each_iteration=True, at_each_function_call=False)
+        trace_requests(problem, bool(spec["scenario"].get("normalized")))
     algo = dict(spec["scenario"]["algo"])
     if "samples" in algo:
         algo["samples"] = np.array(algo["samples"], dtype=float)
@@ -116,5 +162,64 @@ def main(spec_path: str) -> int:
     return 0
 
 
+def preload() -> None:
+    """Import what a run needs and let the factories scan their packages (class registries only:
+    no scenario, discipline or problem object is created before the fork)."""
+    import h5py  # noqa: F401
+    import numpy  # noqa: F401
+    from gemseo.algos.doe.factory import DOELibraryFactory
+    from gemseo.algos.opt.factory import OptimizationLibraryFactory
+    from gemseo.formulations.factory import MDOFormulationFactory
+    from gemseo.scenarios.doe_scenario import DOEScenario  # noqa: F401
+    from gemseo.scenarios.mdo_scenario import MDOScenario  # noqa: F401
+
+    from harness import c12_disc  # noqa: F401
+
+    DOELibraryFactory()
+    OptimizationLibraryFactory()
+    MDOFormulationFactory()
+
+
+def serve(timeout: float = 170.0) -> int:
+    import time
+    import traceback
+
+    preload()
+    sys.stdout.write("ready\n")
+    sys.stdout.flush()
+    for line in sys.stdin:
+        spec_path = line.strip()
+        if not spec_path:
+            continue
+        pid = os.fork()
+        if pid == 0:
+            rc = 3
+            try:
+                fd = os.open(spec_path + ".err", os.O_WRONLY | os.O_CREAT | os.O_TRUNC)
+                os.dup2(fd, 2)
+                rc = main(spec_path)
+            except BaseException:  # noqa: BLE001
+                traceback.print_exc()
+            finally:
+                os._exit(rc)
+        t0 = time.time()
+        while True:
+            done, status = os.waitpid(pid, os.WNOHANG)
+            if done:
+                rc = os.waitstatus_to_exitcode(status)
+                break
+            if time.time() - t0 > timeout:
+                os.kill(pid, 9)
+                os.waitpid(pid, 0)
+                rc = -9
+                break
+            time.sleep(0.002)
+        sys.stdout.write(f"{rc}\n")
+        sys.stdout.flush()
+    return 0
+
+
 if __name__ == "__main__":
+    if sys.argv[1] == "--server":
+        sys.exit(serve())
     sys.exit(main(sys.argv[1]))
